@@ -27,6 +27,14 @@ type Tape struct {
 	FailAt    int
 	FailShort int
 	failArmed bool
+	fired     bool
+}
+
+// Fired reports whether the armed failure was actually returned to a reader.
+func (t *Tape) Fired() bool {
+	t.mu.Lock()
+	defer t.mu.Unlock()
+	return t.fired
 }
 
 // ErrEntropy is what a failing tape returns.
@@ -68,6 +76,7 @@ func (t *Tape) Read(p []byte) (int, error) {
 		copy(p, tapeBytes(t.Seed, t.Off, n))
 		t.Reads = append(t.Reads, TapeRead{Off: t.Off, Len: n, Data: append([]byte{}, p[:n]...)})
 		t.Off += n
+		t.fired = true
 		return n, ErrEntropy
 	}
 	seed := t.Seed
